@@ -763,12 +763,23 @@ def lvalue_path(n):
 _simple_cache = {}
 
 
+def default_overridden(pdb, fn):
+    """fn is a provided (default) method of a local trait and some local impl of that trait overrides it: a call through the
+    trait may run the override, so the default body says nothing about it."""
+    if fn.get("impl_self") or fn.get("kind") != "AssocFn" or "::" not in fn["path"]:
+        return False
+    tr, nm = fn["path"].rsplit("::", 1)
+    return any(f_.get("impl_trait") == tr and (f_.get("name") or f_["path"].rsplit("::", 1)[-1]) == nm for f_ in pdb.local_fns())
+
+
 def is_simple_fn(pdb, fn, depth=0):
     """A local fn whose body is one side-effect-free expression over its parameters (a getter)."""
     key = (id(pdb), fn["path"])
     if key in _simple_cache:
         return _simple_cache[key]
     _simple_cache[key] = False
+    if default_overridden(pdb, fn):
+        return False
     body = strip(fn["body"])
     ok = depth < 4 and fn["kind"] in ("Fn", "AssocFn") and _simple_expr(pdb, body, depth)
     _simple_cache[key] = ok
